@@ -271,8 +271,9 @@ class HttpDataTransform:
         # logger.debug("transform steps: %r", self.tsteps)
         request = request or HttpRequest(method=b"", uri=b"", body=b"", params={}, headers={})
         uri = request.uri
-        params = request.params
-        headers = request.headers
+        # work on copies, the initial request (and messages produced from it earlier) belong to the caller
+        params = dict(request.params)
+        headers = dict(request.headers)
         body = request.body
         data: bytes = b""
         for step, step_val in self.tsteps:
